@@ -1,13 +1,35 @@
 pub mod c01;
 pub mod c02;
 pub mod c03;
+pub mod c04;
+pub mod c05;
+pub mod c10;
+pub mod c11;
+pub mod c12;
+pub mod c18;
 pub mod hist;
+
+use crate::run::Tier;
 
 pub fn hist_prop(id: &str) -> Option<hist::HistProp> {
     match id {
         "C01" => Some(c01::prop()),
         "C02" => Some(c02::prop()),
         "C03" => Some(c03::prop()),
+        "C04" => Some(c04::prop()),
+        "C05" => Some(c05::prop()),
+        "C10" => Some(c10::prop()),
+        "C11" => Some(c11::prop()),
+        "C12" => Some(c12::prop()),
+        "C18" => Some(c18::prop()),
         _ => None,
+    }
+}
+
+/// run one property; None = unknown id
+pub fn run(id: &str, tier: Tier, seed: u64) -> Option<i32> {
+    match id {
+        "C05" => Some(c05::run(tier, seed)),
+        _ => hist_prop(id).map(|hp| hist::run(&hp, tier, seed)),
     }
 }
